@@ -642,3 +642,8 @@ func TestVerifC37(t *testing.T) {
 		"addresses": f.addr, "first_tx_id": hex.EncodeToString([]byte(f.txs[0].id))})
 	r.Finish(exhaustive)
 }
+
+// verifC37SyncGo replaces the one `go tp.dropTransactions(dropped)` statement of
+// TransactionPool.Candidate (AST-level rewrite by the recipe): the drop runs
+// synchronously so that the second Candidate call of a case is deterministic.
+func verifC37SyncGo(f func()) { f() }
